@@ -17,6 +17,20 @@ pub fn raw_read<R: Read>(mut r: R, buf: &mut [u8]) -> io::Result<usize> {
     r.read(buf)
 }
 
+/// C01-R9: a call that fills a `&mut [u8]` and reports the length produced, with that length dropped
+pub fn fill_len_dropped<R: Read>(mut r: R) -> io::Result<Vec<u8>> {
+    let mut buffer = vec![0; 64];
+    r.read(&mut buffer)?;
+    Ok(buffer)
+}
+/// ... and the same with the length used (must not be reported)
+pub fn fill_len_used<R: Read>(mut r: R) -> io::Result<Vec<u8>> {
+    let mut buffer = vec![0; 64];
+    let n = r.read(&mut buffer)?;
+    buffer.truncate(n);
+    Ok(buffer)
+}
+
 /// C11-R5: iteration order of a hash map
 pub fn hash_order(m: &HashMap<u32, u32>) -> Vec<u32> {
     m.keys().copied().collect()
